@@ -237,10 +237,15 @@ namespace
                 { "#0", "a=b; Max-Age=%N", false }, { "#0", "a=b; Max-Age=%N; Secure", false }, { "#0", "a=b; Expires=Sun, 06 Nov %N 08:49:37 GMT", false },
                 { "#1", "a=b; c=%N", false }, { "#2", "text/plain; q=%N", false }, { "#2", "text/plain; q=0.%N", false },
                 { "#3", "127.0.0.1:%N", false }, { "#3", "[::1]:%N", false }, { "#3", "%N.0.0.1:80", false }, { "#4", "%N", false },
+                // %D: a correctly formed HTTP-date next to the edge of the representable time range
+                { "date", "%D", false }, { "date", "%D", false }, { "#0", "a=b; Expires=%D", false }, { "#0", "a=b; Expires=%D; Secure", false },
             };
             const Tpl& tp = tpls[c.pick(uint32_t(sizeof tpls / sizeof tpls[0]))];
             forced        = tp.text;
-            forced.replace(forced.find("%N"), 2, gen::boundary_number(c, tp.hex));
+            if (forced.find("%D") != std::string::npos)
+                forced.replace(forced.find("%D"), 2, gen::boundary_http_date(c));
+            else
+                forced.replace(forced.find("%N"), 2, gen::boundary_number(c, tp.hex));
             if (tp.target[0] == '#')
                 which = unsigned(names.size()) + unsigned(tp.target[1] - '0');
             else
